@@ -42,14 +42,7 @@ def _variant(s):
     return 1 if (s["model"] == "energy" and (s["pseed"] // 5) % 3 == 0) else 0
 
 
-def _known_nonmatching_intersection_tags(s):
-    """Boundary conditions by type on the non-matching model geometry with two (intersecting) fractures: the split
-    faces of the fracture grids at the intersection are tagged as domain boundary faces there."""
-    return _variant(s) == 1 and s.get("geom") == "nonmatching" and len(s["fracs"]) == 2
-
-
-KNOWN = {"C04-fouriers-law-ad-drops-interface-flux": _known_adflux_energy,
-         "C04-nonmatching-geometry-tags-intersection-faces-as-domain-boundary": _known_nonmatching_intersection_tags}
+KNOWN = {"C04-fouriers-law-ad-drops-interface-flux": _known_adflux_energy}
 
 
 def _closed_mixin(variant=0, seed=0):
